@@ -149,6 +149,23 @@ def buildRaw (c : Ciphers) (kbpk : Bytes) (h : Header) (forms : List Nat) (padMo
     let t := tag c ver kbak hdr [] enc
     hdr ++ hexOfBytes (!lower) enc ++ hexOfBytes (!lower) t
 
+/-- versions A and C authenticate the *encrypted* key data: a holder of the KBPK can therefore attach a correct MAC to
+encrypted key data of any length, a whole number of cipher blocks or not (used only by the correspondence streams that
+exercise the rejection paths behind the MAC check) -/
+def buildRawEnc (c : Ciphers) (kbpk : Bytes) (h : Header) (enc : Bytes) (lower : Bool) : PyStr :=
+  let ver := h.versionId.headD 0
+  let bs := bsOf ver
+  let ml := macLenOf ver
+  let body := encodeBlocks h.blocks []
+  let (pb, cnt) := padBlock bs body.length 0
+  let opt := body ++ pb
+  let total := 16 + opt.length + 2 * enc.length + 2 * ml
+  let hdr := h.versionId ++ dec4 total ++ h.keyUsage ++ h.algorithm ++ h.modeOfUse ++ h.versionNum ++
+    h.exportability ++ dec2 (h.blocks.length + cnt) ++ h.reserved ++ opt
+  let (_, kbak) := deriveKeys c ver kbpk
+  let t := tag c ver kbak hdr [] enc
+  hdr ++ hexOfBytes (!lower) enc ++ hexOfBytes (!lower) t
+
 /-! ## parsing and verification from the grammar -/
 
 def hexNat? (s : PyStr) : Option Nat :=
